@@ -524,6 +524,12 @@ def rule_dup1(ctx: Ctx) -> RuleResult:
     mv = norm(lp.target)
     paths = enumerate_paths(lp.body)
     renames = 0
+    from .naming import rule_uniq2
+    try:
+        u2 = rule_uniq2(ctx)
+        later_dedupe = bool(u2.obligations) and all(o.verdict != VIOLATED for o in u2.obligations)
+    except AnalysisError:
+        later_dedupe = False
     for p in paths:
         rr.instances += 1
         counted = any((isinstance(s, ast.AugAssign) and "counter" in norm(s.target)) or (
@@ -542,6 +548,13 @@ def rule_dup1(ctx: Ctx) -> RuleResult:
         # a path where the count exceeds 1 must rename, whatever else holds
         dup = any("counter" in norm(c) and tv and _eval_cmp(c, {norm(c.left): 2}) for c, tv in p.conds())
         ok = counted and (renamed or not dup)
+        if not ok and counted and dup and not renamed and later_dedupe:
+            # the generators de-duplicate the class names again after normalising them (UNIQ-2 decides that step): a duplicate
+            # the registry leaves under some condition does not reach the generated module
+            rr.ob(f.relpath, f.qualname, p.describe()[:90], "a model whose name is taken is renamed before its class is emitted",
+                  DISCHARGED, f"not renamed here because of {others}; renamed by the de-duplication after normalisation (UNIQ-2)", lp.lineno)
+            renames += 1
+            continue
         rr.ob(f.relpath, f.qualname, p.describe()[:90], "a model is counted, and renamed whenever its name was seen before - "
               "independently of how the name was obtained", DISCHARGED if ok else VIOLATED,
               "counted" + (", renamed" if renamed else "") if ok else
